@@ -274,7 +274,7 @@ structure ShiftRel (k : Nat) (c c' : PState) : Prop where
   us : c.ustack = c'.ustack
   rs : c.rstack = c'.rstack
   ad : c.adepth = c'.adepth
-  tg : c.tagStack = c'.tagStack
+  tg : c.tagStack = c'.tagStack ∧ c.tagHist = c'.tagHist
   nd : c.negDepth = c'.negDepth
   sp : c.suppress = c'.suppress
   fe : c.fexp = c'.fexp
@@ -302,7 +302,7 @@ theorem setAdepth (s : ShiftRel k c c') (a : SnapInt) :
 
 theorem setTag (s : ShiftRel k c c') (t : List String) :
     ShiftRel k { c with tagStack := t } { c' with tagStack := t } :=
-  ⟨s.pos, s.ph, s.fp, s.us, s.rs, s.ad, rfl, s.nd, s.sp, s.fe, s.fu, s.fs⟩
+  ⟨s.pos, s.ph, s.fp, s.us, s.rs, s.ad, ⟨rfl, s.tg.2⟩, s.nd, s.sp, s.fe, s.fu, s.fs⟩
 
 theorem setNeg (s : ShiftRel k c c') (n : Nat) :
     ShiftRel k { c with negDepth := n } { c' with negDepth := n } :=
@@ -314,15 +314,19 @@ theorem setSuppress (s : ShiftRel k c c') (b : Bool) :
 
 theorem checkpoint (s : ShiftRel k c c') : ShiftRel k c.checkpoint c'.checkpoint :=
   ⟨s.pos, by simp [PState.checkpoint, s.pos, s.ph], s.fp, by simp [PState.checkpoint, s.us],
-   by simp [PState.checkpoint, s.rs], by simp [PState.checkpoint, s.ad], s.tg, s.nd, s.sp, s.fe, s.fu, s.fs⟩
+   by simp [PState.checkpoint, s.rs], by simp [PState.checkpoint, s.ad],
+   ⟨s.tg.1, by simp [PState.checkpoint, s.tg.1, s.tg.2]⟩, s.nd, s.sp, s.fe, s.fu, s.fs⟩
 
 theorem ok (s : ShiftRel k c c') : ShiftRel k c.ok c'.ok :=
   ⟨s.pos, by simp [PState.ok, s.ph], s.fp, by simp [PState.ok, s.us],
-   by simp [PState.ok, s.rs], by simp [PState.ok, s.ad], s.tg, s.nd, s.sp, s.fe, s.fu, s.fs⟩
+   by simp [PState.ok, s.rs], by simp [PState.ok, s.ad], ⟨s.tg.1, by simp [PState.ok, s.tg.2]⟩,
+   s.nd, s.sp, s.fe, s.fu, s.fs⟩
 
 theorem restore (s : ShiftRel k c c') : ShiftRel k c.restore c'.restore := by
   refine ⟨?_, by simp [PState.restore, s.ph], s.fp, by simp [PState.restore, s.us],
-   by simp [PState.restore, s.rs], by simp [PState.restore, s.ad], s.tg, s.nd, s.sp, s.fe, s.fu, s.fs⟩
+   by simp [PState.restore, s.rs], by simp [PState.restore, s.ad],
+   ⟨by simp [PState.restore, s.tg.1, s.tg.2], by simp [PState.restore, s.tg.2]⟩,
+   s.nd, s.sp, s.fe, s.fu, s.fs⟩
   simp only [PState.restore, s.ph, s.pos]
   cases c'.posHist with
   | nil => rfl
@@ -333,21 +337,21 @@ theorem left_unique {c₁ c₂ c' : PState} (h₁ : ShiftRel k c₁ c') (h₂ : 
   have hf : c₁.fpos = c₂.fpos := by
     rcases h₁.fp with ⟨a, b⟩ | ⟨a, b⟩ <;> rcases h₂.fp with ⟨a', b'⟩ | ⟨a', b'⟩ <;> omega
   have e1 := h₁.pos; have e2 := h₁.ph; have e3 := h₁.us; have e4 := h₁.rs; have e5 := h₁.ad
-  have e6 := h₁.tg; have e7 := h₁.nd; have e8 := h₁.sp; have e9 := h₁.fe; have e10 := h₁.fu
+  have e6 := h₁.tg.1; have e6' := h₁.tg.2; have e7 := h₁.nd; have e8 := h₁.sp; have e9 := h₁.fe; have e10 := h₁.fu
   have e11 := h₁.fs
   have d1 := h₂.pos; have d2 := h₂.ph; have d3 := h₂.us; have d4 := h₂.rs; have d5 := h₂.ad
-  have d6 := h₂.tg; have d7 := h₂.nd; have d8 := h₂.sp; have d9 := h₂.fe; have d10 := h₂.fu
+  have d6 := h₂.tg.1; have d6' := h₂.tg.2; have d7 := h₂.nd; have d8 := h₂.sp; have d9 := h₂.fe; have d10 := h₂.fu
   have d11 := h₂.fs
   cases c₁; cases c₂
   simp only at *
   simp only [PState.mk.injEq]
   exact ⟨by omega, by rw [e3, d3], by rw [e4, d4], by rw [e5, d5], by rw [e2, d2], by rw [e6, d6],
-    by omega, by rw [e8, d8], hf, by rw [e9, d9], by rw [e10, d10], by rw [e11, d11]⟩
+    by rw [e6', d6'], by omega, by rw [e8, d8], hf, by rw [e9, d9], by rw [e10, d10], by rw [e11, d11]⟩
 
 end ShiftRel
 
 theorem shiftRel_init (k j : Nat) : ShiftRel k (PState.init (j + k)) (PState.init j) :=
-  ⟨rfl, rfl, Or.inl ⟨rfl, rfl⟩, rfl, rfl, rfl, rfl, rfl, rfl, rfl, rfl, rfl⟩
+  ⟨rfl, rfl, Or.inl ⟨rfl, rfl⟩, rfl, rfl, rfl, ⟨rfl, rfl⟩, rfl, rfl, rfl, rfl, rfl⟩
 
 /-! ### `fail()` -/
 
@@ -466,7 +470,7 @@ theorem ruleExit_shift {c2 c2' : PState} (name : String) (mod : Nat) {start star
       · simp only [hS, ↓reduceIte]
         exact ⟨_, children', rfl, s4, hch⟩
       · simp only [hS, Bool.false_eq_true, ↓reduceIte]
-        have htg : c3.tagStack = c3'.tagStack := s3.tg
+        have htg : c3.tagStack = c3'.tagStack := s3.tg.1
         rw [htg]
         have hvis : (if hasBit mod ATOMIC = true then visibleList children else children)
             = shiftL k (if hasBit mod ATOMIC = true then visibleList children' else children') := by
@@ -510,7 +514,7 @@ theorem withTag_shift (tag : Option String) {c c' : PState} (s : ShiftRel k c c'
   | some t =>
     simp only []
     have s' : ShiftRel k { c with tagStack := t :: c.tagStack } { c' with tagStack := t :: c'.tagStack } := by
-      rw [s.tg]; exact s.setTag _
+      rw [s.tg.1]; exact s.setTag _
     have h := hb _ _ s'
     revert h
     cases body { c with tagStack := t :: c.tagStack } with
@@ -521,7 +525,7 @@ theorem withTag_shift (tag : Option String) {c c' : PState} (s : ShiftRel k c c'
       obtain ⟨d', ps', e', sd, hps⟩ := h
       simp only [e']
       refine ⟨_, ps', rfl, ?_, hps⟩
-      rw [sd.tg]; exact sd.setTag _
+      rw [sd.tg.1]; exact sd.setTag _
 
 theorem callRule_shift {r r' : Sem1} (hg : SOIFree g) (h : ShiftGood k r r') (name : String)
     {c c' : PState} (s : ShiftRel k c c') :
@@ -1106,7 +1110,7 @@ theorem ruleExitG_shift {c2 c2' : PState} (name : String) (mod : Nat) {start sta
       · simp only [hS, ↓reduceIte]
         exact ⟨_, _, rfl, s4, by rw [shiftL_append, hch]⟩
       · simp only [hS, Bool.false_eq_true, ↓reduceIte]
-        have htg : c3.tagStack = c3'.tagStack := s3.tg
+        have htg : c3.tagStack = c3'.tagStack := s3.tg.1
         rw [htg]
         have hvis : (if hasBit mod ATOMIC = true then visibleList children else children)
             = shiftL k (if hasBit mod ATOMIC = true then visibleList children' else children') := by
@@ -1164,7 +1168,7 @@ theorem withTagG_shift (tag : Option String) {c c' : PState} (s : ShiftRel k c c
   | some t =>
     simp only []
     have s' : ShiftRel k { c with tagStack := t :: c.tagStack } { c' with tagStack := t :: c'.tagStack } := by
-      rw [s.tg]; exact s.setTag _
+      rw [s.tg.1]; exact s.setTag _
     have h := hb _ _ s'
     revert h
     cases body { c with tagStack := t :: c.tagStack } with
@@ -1175,7 +1179,7 @@ theorem withTagG_shift (tag : Option String) {c c' : PState} (s : ShiftRel k c c
       obtain ⟨d', ps', e', sd, hps⟩ := h
       simp only [e']
       refine ⟨_, ps', rfl, ?_, hps⟩
-      rw [sd.tg]; exact sd.setTag _
+      rw [sd.tg.1]; exact sd.setTag _
 
 def TryShiftG (k : Nat) : LG.TryG → LG.TryG → Prop
   | .matched c ps, t' => ∃ c' ps', t' = .matched c' ps' ∧ ShiftRel k c c' ∧ ps = shiftL k ps'
